@@ -32,7 +32,7 @@ async def observe_inbox(o):
     ex = [x.num for x in r.responses if x.kind == "num" and x.name == "EXISTS"]
     if r.ok and ex and ex[-1]:
         rf = await o.cmd("UID FETCH 1:* (UID RFC822.SIZE BODY.PEEK[HEADER.FIELDS (X-CID)])")
-        for n, d in sorted(rf.fetches()):
+        for n, d in sorted(rf.fetches(), key=lambda t: t[0]):
             if "UID" in d:
                 m = re.search(rb"X-CID:\s*(\S+)", bytes(d.get("BODY[HEADER.FIELDS (X-CID)]") or b""))
                 rows.append((d["UID"], m.group(1).decode() if m else None, d.get("RFC822.SIZE")))
